@@ -522,12 +522,7 @@ class World:
         multi = [lb for lb in after if after[lb][0] == "multi"]
         for lb in multi:
             self.bad("double-completion", kind, evclass, "%s fired %d times" % (lb, after[lb][1]))
-        if exc is not None and not H.is_protocol_error(exc) and v == "unspecified":
-            # a progressive RESULT for a call that did not ask for progress: the router broke the
-            # protocol first; the statement does not say how the session has to react
-            if stats is not None:
-                stats["unrequested_progress_crash:" + type(exc).__name__] += 1
-        elif exc is not None and not H.is_protocol_error(exc):
+        if exc is not None and not H.is_protocol_error(exc):
             en = type(exc).__name__
             if en in ("AlreadyCalledError", "InvalidStateError"):
                 self.bad("double-completion", kind, evclass, "onMessage raised %s" % H.exc_brief(exc))
@@ -598,9 +593,20 @@ class World:
             if dg0 != self.digest():
                 self.bad("state-changed", kind, evclass, "rejected message changed the session state")
         elif v == "unspecified":
+            # a progressive RESULT for a call that did not ask for progress: the router broke the
+            # protocol first.  Ignoring it or treating it as a protocol violation are both fine;
+            # but a progressive result never completes a call (it may only reach a progress
+            # handler), never touches another request and never crashes the session.
+            if stats is not None:
+                stats["unrequested_progress:" + ("rejected" if exc is not None else "ignored")] += 1
             for o in changed:
                 if o != verdict.get("label"):
                     self.bad("other-future-touched", kind, evclass, "%s: %r -> %r" % (o, before[o], after[o]))
+                elif exc is None and not aborted:
+                    self.bad("completed-by-progress", kind, evclass, "%s: %r -> %r by a progressive "
+                             "RESULT it did not ask for" % (o, before[o], after[o]))
+            if len(self.progress_log) != np0:
+                self.bad("progress-misrouted", kind, evclass, "%r" % (self.progress_log[np0:],))
         elif v in ("drop", "either"):
             for o in changed:
                 self.bad("other-future-touched", kind, evclass, "%s: %r -> %r" % (o, before[o], after[o]))
@@ -1008,7 +1014,15 @@ def _job_flat(a, env, seed):
                 (lambda: T.PublishOptions(exclude=[7, 8], eligible=[9], retain=True),
                  {"exclude": [7, 8], "eligible": [9], "retain": True}),
                 (lambda: T.PublishOptions(acknowledge=True, exclude_authid=["a"], eligible_authrole=["r"]),
-                 {"acknowledge": True, "exclude_authid": ["a"], "eligible_authrole": ["r"]})]):
+                 {"acknowledge": True, "exclude_authid": ["a"], "eligible_authrole": ["r"]}),
+                # receiver lists computed at run time that turn out empty: "nobody is eligible" is
+                # not "everybody is"
+                (lambda: T.PublishOptions(eligible=[]), {"eligible": []}),
+                (lambda: T.PublishOptions(acknowledge=True, eligible_authid=[], eligible_authrole=[]),
+                 {"acknowledge": True, "eligible_authid": [], "eligible_authrole": []}),
+                # single values are sent as one-element lists
+                (lambda: T.PublishOptions(exclude=7, eligible=9, exclude_authid="a", eligible_authrole="r"),
+                 {"exclude": [7], "eligible": [9], "exclude_authid": ["a"], "eligible_authrole": ["r"]})]):
             cases.append(("publish", sh, i, mk, exp))
     for i, (mk, exp) in enumerate([
             (lambda: None, {}),
